@@ -116,20 +116,48 @@ class _Sock:
 
 
 # ------------------------------------------------------------------ paramiko
-def run_paramiko(cfg, kh, host, server_b64, server_key_type="ssh-ed25519"):
+def _begin(t, cfg, rec, att, kh):
+    """start of one attempt of a history: optional close(), new known_hosts content, new configuration"""
+    pre = []
+    if att.get("close"):
+        try:
+            t.close()
+        except Exception as e:
+            pre.append(f"close-raised:{type(e).__name__}")
+    if att.get("text") is not None:
+        with open(kh, "w") as f:
+            f.write(att["text"])
+    cfg.clear()
+    cfg.update(att["cfg"])
+    t.plugin_transport_args.auth_strict_key = cfg["strict"]
+    t.plugin_transport_args.auth_username = "bob" if cfg["hasUser"] else ""
+    t.plugin_transport_args.auth_password = "pw" if cfg["hasPw"] else ""
+    t.plugin_transport_args.auth_private_key = "/nonexistent/id_rsa" if cfg["hasKey"] else ""
+    rec.ev = pre
+
+
+def history_paramiko(attempts, kh, host, server_b64, server_key_type="ssh-ed25519"):
+    """attempts: [{"cfg":…, "close": bool, "text": known_hosts content or None}] on ONE transport object
+    -> [(trace, session still referenced afterwards)]"""
     import scrapli.transport.plugins.paramiko.transport as M
     from paramiko.ssh_exception import AuthenticationException, SSHException
     rec = Rec(server_b64)
+    cfg = dict(attempts[0]["cfg"])
 
     class FakeSession:
         def __init__(self, sock):
             self.authed = False
+            self.active = False
             self.disabled_algorithms = {}
 
-        def start_client(self):
+        def start_client(self, *a, **k):
             rec("kex")
             if not cfg["kexOK"]:
                 raise SSHException("handshake failed")
+            self.active = True
+
+        def is_active(self): return self.active
+        def is_alive(self): return self.active
 
         def get_remote_server_key(self):
             class K:
@@ -137,13 +165,13 @@ def run_paramiko(cfg, kh, host, server_b64, server_key_type="ssh-ed25519"):
                 def get_name(self_inner): return server_key_type
             return K()
 
-        def auth_publickey(self, username, key):
+        def auth_publickey(self, username, key, *a, **k):
             rec("offerKey")
             if not cfg["accKey"]:
                 raise AuthenticationException("no")
             self.authed = True
 
-        def auth_password(self, username, password):
+        def auth_password(self, username, password, *a, **k):
             rec("offerPassword")
             if not cfg["accPw"]:
                 raise AuthenticationException("no")
@@ -151,32 +179,42 @@ def run_paramiko(cfg, kh, host, server_b64, server_key_type="ssh-ed25519"):
 
         def is_authenticated(self): return self.authed
 
-        def open_session(self):
+        def open_session(self, *a, **k):
             rec("openSession")
             return _Chan()
 
-        def close(self): pass
+        def close(self): self.active = False
 
     class FakeRSAKey:
-        def __init__(self, filename=None):
+        def __init__(self, filename=None, *a, **k):
             if not cfg["keyLoads"]:
                 raise FileNotFoundError(filename)
 
     saved = (M._ParamikoTransport, M.RSAKey)
     real_kh = _wrap_known_hosts(M, rec)
     M._ParamikoTransport, M.RSAKey = FakeSession, FakeRSAKey
+    out = []
     try:
         t = M.ParamikoTransport(_base_args(host), M.PluginTransportArgs(**_plugin_kwargs(cfg, kh)))
         t.socket = _Sock()
         _wrap_verify(t, rec, ("_verify_key",))
-        try:
-            t.open()
-        except Exception as e:
-            rec(exc_name(e))
+        for att in attempts:
+            _begin(t, cfg, rec, att, kh)
+            if t.socket is None:
+                t.socket = _Sock()
+            try:
+                t.open()
+            except Exception as e:
+                rec(exc_name(e))
+            out.append((list(rec.ev), getattr(t, "session", None) is not None))
     finally:
         M._ParamikoTransport, M.RSAKey = saved
         M.SSHKnownHosts = real_kh
-    return rec.ev
+    return out
+
+
+def run_paramiko(cfg, kh, host, server_b64, server_key_type="ssh-ed25519"):
+    return history_paramiko([{"cfg": cfg, "close": False, "text": None}], kh, host, server_b64, server_key_type)[0][0]
 
 
 # ------------------------------------------------------------------ asyncssh
@@ -191,11 +229,12 @@ def _pub(server_b64, key_type):
     return _pubkey_cache[k]
 
 
-async def run_asyncssh_async(cfg, kh, host, server_b64, server_key_type, port=22, transport_options=None):
+async def history_asyncssh_async(attempts, kh, host, server_b64, server_key_type, port=22, transport_options=None):
     import asyncssh
     import scrapli.transport.plugins.asyncssh.transport as M
     from asyncssh.known_hosts import match_known_hosts
     rec = Rec(server_b64)
+    cfg = dict(attempts[0]["cfg"])
     seen_kwargs = {}
 
     class FakeConn:
@@ -207,8 +246,10 @@ async def run_asyncssh_async(cfg, kh, host, server_b64, server_key_type, port=22
             return object(), object(), object()
 
         def close(self): pass
+        def is_closed(self): return False
 
     async def fake_connect(**kw):
+        seen_kwargs.clear()
         seen_kwargs.update(kw)
         if kw.get("client_keys"):
             if not cfg["keyLoads"]:
@@ -237,6 +278,7 @@ async def run_asyncssh_async(cfg, kh, host, server_b64, server_key_type, port=22
     saved = M.connect
     real_kh = _wrap_known_hosts(M, rec)
     M.connect = fake_connect
+    out = []
     try:
         base = _base_args(host, port)
         if transport_options:
@@ -245,14 +287,27 @@ async def run_asyncssh_async(cfg, kh, host, server_b64, server_key_type, port=22
         full = tuple(n for n in ("_verify_key", "_verify_key_value") if _compares_value(M.AsyncsshTransport, n))
         pres = tuple(n for n in ("_verify_key", "_verify_key_value") if n not in full)
         _wrap_verify(t, rec, full, pres)
-        try:
-            await t.open()
-        except Exception as e:
-            rec(exc_name(e))
+        for att in attempts:
+            _begin(t, cfg, rec, att, kh)
+            try:
+                await t.open()
+            except Exception as e:
+                rec(exc_name(e))
+            out.append((list(rec.ev), getattr(t, "session", None) is not None))
     finally:
         M.connect = saved
         M.SSHKnownHosts = real_kh
-    return rec.ev, seen_kwargs
+    return out, dict(seen_kwargs)
+
+
+def history_asyncssh(attempts, kh, host, server_b64, server_key_type, **kw):
+    return asyncio.run(history_asyncssh_async(attempts, kh, host, server_b64, server_key_type, **kw))[0]
+
+
+async def run_asyncssh_async(cfg, kh, host, server_b64, server_key_type, port=22, transport_options=None):
+    out, kw = await history_asyncssh_async([{"cfg": cfg, "close": False, "text": None}], kh, host, server_b64, server_key_type,
+                                           port=port, transport_options=transport_options)
+    return out[0][0], kw
 
 
 def run_asyncssh(cfg, kh, host, server_b64, server_key_type, **kw):
@@ -341,19 +396,30 @@ def ssh2_available():
         return False
 
 
-def run_ssh2(cfg, kh, host, server_b64):
+def history_ssh2(attempts, kh, host, server_b64):
     import scrapli.transport.plugins.ssh2.transport as M
     rec = Rec(server_b64)
+    cfg = dict(attempts[0]["cfg"])
     _Ssh2State.cfg, _Ssh2State.rec = cfg, rec
     real_kh = _wrap_known_hosts(M, rec)
+    out = []
     try:
         t = M.Ssh2Transport(_base_args(host), M.PluginTransportArgs(**_plugin_kwargs(cfg, kh)))
         t.socket = _Sock()
         _wrap_verify(t, rec, ("_verify_key",))
-        try:
-            t.open()
-        except Exception as e:
-            rec(exc_name(e))
+        for att in attempts:
+            _begin(t, cfg, rec, att, kh)
+            if t.socket is None:
+                t.socket = _Sock()
+            try:
+                t.open()
+            except Exception as e:
+                rec(exc_name(e))
+            out.append((list(rec.ev), getattr(t, "session", None) is not None))
     finally:
         M.SSHKnownHosts = real_kh
-    return rec.ev
+    return out
+
+
+def run_ssh2(cfg, kh, host, server_b64):
+    return history_ssh2([{"cfg": cfg, "close": False, "text": None}], kh, host, server_b64)[0][0]
